@@ -765,7 +765,7 @@ func (n *normalizer) inlinable(c *callee, newcomers map[*types.Func]*callee) (ok
 			})
 			return false
 		case *ast.LabeledStmt:
-			bad = "label"
+			// labels are renamed per inlining site (bodyText)
 		case *ast.BranchStmt:
 			if x.Tok == token.GOTO {
 				bad = "goto"
@@ -977,9 +977,12 @@ func (n *normalizer) bodyText(c *callee, call *ast.CallExpr, tag string, cm ...*
 	}
 	// names bound so far must not occur in later argument or type texts
 	bound := map[string]bool{}
+	// a name bound to itself (`var s *Session = s` for the argument s) still means the
+	// same value in later argument texts
+	boundSame := map[string]bool{}
 	checkFree := func(e ast.Node, typ string) bool {
 		for name := range identsIn(e) {
-			if bound[name] {
+			if bound[name] && !boundSame[name] {
 				return false
 			}
 		}
@@ -1028,6 +1031,7 @@ func (n *normalizer) bodyText(c *callee, call *ast.CallExpr, tag string, cm ...*
 		}
 		fmt.Fprintf(&b, "var %s %s = %s\n", rname, printNode(fs, fd.Recv.List[0].Type), expr)
 		if rname != "_" {
+			boundSame[rname] = expr == rname
 			bound[rname] = true
 			used = append(used, rname)
 		}
@@ -1065,6 +1069,7 @@ func (n *normalizer) bodyText(c *callee, call *ast.CallExpr, tag string, cm ...*
 		fmt.Fprintf(&b, "var %s %s = %s\n", p.name, p.typ, rhs)
 		if p.name != "_" {
 			bound[p.name] = true
+			boundSame[p.name] = rhs == p.name
 			used = append(used, p.name)
 		}
 	}
@@ -1109,6 +1114,35 @@ func (n *normalizer) bodyText(c *callee, call *ast.CallExpr, tag string, cm ...*
 			return ""
 		}
 		return strings.Join(out, "\n") + "\n"
+	}
+	// labels of the callee get a per-site name, so that a body inlined at several sites
+	// (or one that already contains an inlined body) declares no label twice
+	{
+		own := map[string]bool{}
+		ast.Inspect(fd.Body, func(nd ast.Node) bool {
+			if _, isLit := nd.(*ast.FuncLit); isLit {
+				return false
+			}
+			if l, isL := nd.(*ast.LabeledStmt); isL {
+				own[l.Label.Name] = true
+			}
+			return true
+		})
+		if len(own) > 0 {
+			ast.Inspect(fd.Body, func(nd ast.Node) bool {
+				switch x := nd.(type) {
+				case *ast.FuncLit:
+					return false
+				case *ast.LabeledStmt:
+					x.Label.Name += "_" + tag
+				case *ast.BranchStmt:
+					if x.Label != nil && own[x.Label.Name] {
+						x.Label.Name += "_" + tag
+					}
+				}
+				return true
+			})
+		}
 	}
 	// replace returns, statement by statement so that the active defers are known
 	retSeq := 0
